@@ -425,6 +425,7 @@ def gen_project(rng, idx):
             rng.choice(SNIPPETS[:15] + SNIPPETS[16:30]).format(i=j, label=rng.choice(labels), label2=rng.choice(labels), inc=0, doc=rng.choice(names)) + "\n"
             for _ in range(rng.randint(1, 3)))
         files[f"source/includes/inc{j}.rst"] = body
+    dup_pages = set(rng.sample(names[1:], min(len(names) - 1, rng.choice([2, 3])))) if (len(names) >= 4 and rng.random() < 0.6) else set()
     for j, name in enumerate(names):
         parts = [f"{'=' * 10}\nTitle {j}\n{'=' * 10}\n"]
         for _ in range(rng.randint(2, 7)):
@@ -437,6 +438,12 @@ def gen_project(rng, idx):
             depth = name.count("/")
             spell = rng.choice(["/images/a.png", "../" * depth + "images/a.png", "../" * depth + "images/a.png"])
             parts.append(f".. image:: {spell}\n   :alt: shared\n")
+        if dup_pages and name in dup_pages:
+            # one label defined on several pages and referred to from a page that does not define it: the reference is ambiguous,
+            # and the message that says so lists the pages - in an order that must not depend on string hashing
+            parts.append(".. _dup-label:\n\nShared label on " + name.replace("/", " ") + "\n~~~~~~~~~~~~~~~~~~~~~~~~~~~~~~~~~~~~~~~~\n\nText.\n")
+        elif dup_pages and rng.random() < 0.5:
+            parts.append("See :ref:`dup-label` for more.\n")
         if j == 0:
             parts.append(".. toctree::\n\n" + "".join(f"   /{nm}\n" for nm in names[1:] if rng.random() < 0.8))
         elif rng.random() < 0.3:
